@@ -48,6 +48,10 @@ def gen_desc(rng):
         n = rng.randrange(0, 8)
         desc = {'source': {'kind': rng.choice(['list', 'dict']), 'n': n},
                 'stages': [{'op': 'map', 'id': 'u0'}]}
+        if rng.random() < 0.12:
+            desc['stages'].append({'op': 'falsy', 'id': 'uf', 'mod': rng.randrange(2, 4),
+                                   'rem': rng.randrange(0, 2),
+                                   'val': rng.choice(['none', 'none', 'zero', 'emptylist', 'false'])})
         a = pargen.abs_eval(desc)
         for j in range(rng.randrange(0, 3)):
             for _try in range(6):
@@ -117,7 +121,8 @@ def gen(rng, tier, index):
     # key iteration of catch() looks examples up by key: with duplicate keys
     # (index lists with repeats) the library refuses loudly, not generated
     firsts = [e[0] for e in ((a.elems if not reshuffled else a.elems_below) or []) if e]
-    items = bool(a.items) and rng.random() < 0.4 and len(set(firsts)) == len(firsts)
+    items = bool(a.items) and rng.random() < 0.4 and len(set(firsts)) == len(firsts) \
+        and not any(s_['op'] == 'falsy' for s_ in desc['stages'])
     down = rng.random() < 0.3
     plans = []
     if ids:
